@@ -176,7 +176,12 @@ pub fn run(ctx: &Ctx) -> Report {
          schedules: byte-wise, every two-partition (all n+1 cut positions, enumerated for bodies <= 600 bytes), strides 7/10/512/4096, (2 % of the bodies carry a 4-6 KB start tag, cut at 200 evenly spaced positions), generated k-partitions with repeated cut points (empty chunks); oracle = concat(filter(chunk_i)) + end() is byte-identical to the single-chunk run; \
          non-trivial = the single-chunk output differs from the input AND at least one evaluated cut falls strictly inside a tag, an attribute value or a multi-byte character (classified with the real tokenizer on the whole body); distinct by case hash",
     );
-    rep.assume("bodies are valid UTF-8 (invalid bytes are C04's subject); schedules with a cut inside the zones of known finding D7 (inside a comment / doctype / CDATA token, or between a raw-text start tag and the end of its end tag) are excluded by construction while that finding is listed, and counted; so are chains in which an earlier filter creates such a zone in the input of a later one (markup appended to <title>)");
+    rep.assume("bodies are valid UTF-8 (invalid bytes are C04's subject)");
+    if known::is_listed("C03", D7) {
+        rep.assume("schedules with a cut inside the zones of known finding D7 (inside a comment / doctype / CDATA token, or between a raw-text start tag and the end of its end tag) are excluded by construction while that finding is listed, and counted; so are chains in which an earlier filter creates such a zone in the input of a later one (markup appended to <title>)");
+    } else {
+        rep.assume("no cut position is excluded: since D7 was repaired (fix eadbe5a) cuts inside comments, doctypes, CDATA sections and raw-text elements that contain markup are part of every enumerated schedule");
+    }
     rep.add(run_part(ctx, "bodies", ctx.cases(30_000, 1_000_000), strategy, check, &[]));
     rep
 }
